@@ -100,8 +100,11 @@ int main(int argc, char **argv)
 		sqfs_drop(xfrm);
 		out_file = strm;
 
-		if (out_file == NULL)
+		if (out_file == NULL) {
+			fputs("creating compressor stream: out of memory\n",
+			      stderr);
 			goto out;
+		}
 	}
 
 	it = tar_compat_iterator_create(filename);
@@ -157,8 +160,12 @@ int main(int argc, char **argv)
 		sqfs_free(ent);
 	}
 
-	if (terminate_archive())
+	ret = terminate_archive();
+	if (ret) {
+		sqfs_perror(out_file->get_filename(out_file),
+			    "writing end of archive", ret);
 		goto out;
+	}
 
 	ret = out_file->flush(out_file);
 	if (ret) {
